@@ -5,6 +5,8 @@ TRANSLATED = {
     "C08": "study.py StudyTiling re-translated into Gallina on every run (harness/py2coq.py) and proved equal to the model",
     "C02": "cli.py cascade_impl re-translated into a Gallina decision tree of calls on every run (harness/py2coq.py) and proved equal to the model of the command under every valuation of its settings",
     "C03": "cli.py transform_impl re-translated into a Gallina decision tree of calls on every run (harness/py2coq.py) and proved equal to the model of the command under every valuation of its settings",
+    "C11": "cli.py tile_allsky_impl re-translated into a Gallina decision tree of calls on every run (harness/py2coq.py) and proved equal to the model of the command under every valuation of its settings",
+    "C20": "cli.py tile_multi_tan_impl re-translated into a Gallina decision tree of calls on every run (harness/py2coq.py) and proved equal to the model of the command",
     "C07": "fits_tiler.py FitsTiler._tile_toast re-translated into a Gallina script of calls on every run (harness/py2coq.py) and proved equal to the model script",
     "C17": "pyramid.py PyramidIO tile naming re-translated into Gallina on every run (harness/py2coq.py) and proved equal to the model",
 }
